@@ -49,6 +49,10 @@ def prepare():
         if r.returncode != 0:
             # /repo does not compile (or the harness does not compile against it): tool error, not a verdict
             raise ToolError("cargo build of the harness against %s failed:\n%s" % (REPO, r.stderr[-4000:]))
+        # tables of the dependencies that a specification enumerates (written only when the content changes)
+        r = subprocess.run([RV, "dump-tables", "--out", os.path.join(WORK, "gen", "emoticon_quotes.json")], capture_output=True, text=True, env=rv_env())
+        if r.returncode != 0 or "RV-DUMPED" not in r.stdout:
+            raise ToolError("rv dump-tables failed: " + (r.stdout + r.stderr)[-1000:])
 
 
 # --------------------------------------------------------------------------------------------
